@@ -64,6 +64,9 @@ class Tainted(_str):
     def __hash__(self):
         self._bad()
 
+    def __bool__(self):
+        return True  # the rendering of a number is never empty
+
     def __format__(self, spec):
         return self
 
